@@ -242,7 +242,7 @@ func c20Run(c *core.Ctx, i int) *core.Result {
 	self, _ := os.Executable()
 	for k := 0; k < m; k++ {
 		out := filepath.Join(c.Work, fmt.Sprintf("c20-child-%d-%d.json", i, k))
-		cmd := exec.Command(self, "-worker", "-prop", "C20", "-tier", c.Tier, "-seed", fmt.Sprint(c.Seed), "-from", fmt.Sprint(i), "-to", fmt.Sprint(i+1), "-journal", out+".journal", "-work", c.Work)
+		cmd := exec.Command(self, "-worker", "-prop", "C20", "-tier", c.Tier, "-seed", fmt.Sprint(c.Seed), "-from", fmt.Sprint(i), "-to", fmt.Sprint(i+1), "-journal", out+".journal", "-work", c.Work, "-bindir", c.BinDir)
 		cmd.Env = append(os.Environ(), "VERIF_C20_CHILD_OUT="+out)
 		cmd.Stdout, cmd.Stderr = nil, nil
 		err := cmd.Run()
